@@ -25,3 +25,7 @@ def main(chk, replay_file):
     if ".emitProgramText(" not in a.text:
         raise hv.ExtractionError("hexasm.cpp no longer prints listings through CodeGen::emitProgramText")
     return c05.main(chk, replay_file, pid=PID)
+
+
+def native_only(chk):
+    c05.native_stage(chk, PID)
